@@ -266,9 +266,25 @@ def varDigestArgs (v : VarArgs) : List PyVal :=
 
 def varGuid (v : VarArgs) : Str := guidOf md5 (varDigestArgs v)
 
-/-- the location a collection digests: `chunk_relative_location` of the span `[min start, max end)`, i.e. the span
-    shifted by the chunk start `cs` when the chunk contains it (`cs = 0` without parent / on a chromosome parent) -/
-def spanVal (lo hi : Int) (cs : Int) : PyVal := ofSpan (lo - cs) (hi - cs)
+/-- the location a collection digests: `chunk_relative_location` of the span `[min start, max end)`, expressed in the
+    frame of the sequence chunk `[cs, ce)` that contains it (`Frame.none` without parent / on a chromosome parent) -/
+structure Frame where
+  cs : Int
+  ce : Int
+  minus : Bool
+  deriving DecidableEq, Repr
+
+/-- no parent / whole-chromosome parent: chunk-relative = chromosome coordinates -/
+def Frame.none : Frame := ⟨0, 0, false⟩
+
+/-- `str(SingleInterval)` on the minus strand -/
+def ofSpanMinus (s e : Int) : PyVal :=
+  .obj (intStr s ++ '-' :: intStr e ++ [':', '-']) ("<SingleInterval ".toList ++ intStr s ++ '-' :: intStr e ++ ":->".toList)
+
+/-- a plus-strand chunk `[cs, ce)` shifts the span by `cs`; a MINUS-strand chunk mirrors it at `ce` and reports the
+    minus strand -/
+def spanVal (lo hi : Int) (fr : Frame) : PyVal :=
+  if fr.minus then ofSpanMinus (fr.ce - hi) (fr.ce - lo) else ofSpan (lo - fr.cs) (hi - fr.cs)
 
 def minList : List Int → Option Int
   | [] => none
@@ -296,7 +312,7 @@ def spanOf (bounds : List (Option Int × Option Int)) : Option (Int × Int) :=
 
 def TxArgs.bounds (t : TxArgs) : Option Int × Option Int := (t.starts.head?, t.ends.getLast?)
 
-def geneDigestArgs (g : GeneArgs) (cs : Int) : Option (List PyVal) :=
+def geneDigestArgs (g : GeneArgs) (cs : Frame) : Option (List PyVal) :=
   (spanOf (g.transcripts.map TxArgs.bounds)).map fun sp =>
     [spanVal sp.1 sp.2 cs, ofOptStr g.geneId, ofOptStr g.geneSymbol, ofOptBiotype g.geneType, ofOptStr g.locusTag,
      ofOptStr g.sequenceName, qualsVal g.quals, .set (g.transcripts.map fun t => .uuid (txGuid md5 t))]
@@ -314,7 +330,7 @@ structure FcArgs where
 
 def FeatArgs.bounds (f : FeatArgs) : Option Int × Option Int := (f.starts.head?, f.ends.getLast?)
 
-def fcDigestArgs (c : FcArgs) (cs : Int) : Option (List PyVal) :=
+def fcDigestArgs (c : FcArgs) (cs : Frame) : Option (List PyVal) :=
   (spanOf (c.features.map FeatArgs.bounds)).map fun sp =>
     [spanVal sp.1 sp.2 cs, ofOptStr c.name, ofOptStr c.id, ofOptStr c.ctype,
      .set ((strUnion (c.features.map (·.featureTypes))).map .str), ofOptStr c.locusTag, ofOptStr c.sequenceName,
@@ -329,7 +345,7 @@ structure VcArgs where
   quals : Quals
   deriving Repr
 
-def vcDigestArgs (c : VcArgs) (cs : Int) : Option (List PyVal) :=
+def vcDigestArgs (c : VcArgs) (cs : Frame) : Option (List PyVal) :=
   (spanOf (c.variants.map fun v => (some v.start, some v.stop))).map fun sp =>
     [spanVal sp.1 sp.2 cs, ofOptStr c.name, ofOptStr c.id, ofOptStr c.sequenceName, qualsVal c.quals,
      .set (c.variants.map fun v => .uuid (varGuid md5 v))]
